@@ -1029,8 +1029,20 @@ def rename(lines, mapping):
     return out
 
 
+def run_scan(run, rnd, thorough):
+    """the line scanner (three regexes, hand-modelled) on the line matrix: full listing, symbol table and image compared"""
+    cases = list(gen_asm.line_matrix(rnd, None if thorough else 0.06))
+    res = fam_asm.compare_progs(run, "asm.scan", cases)
+    for c, im, rep in res:
+        run.case("asm.scan", {"line": c["lines"][1]}, [im["k"]], nontrivial=True, sample_every=997)
+        run.dist["scan." + im["k"]] += 1
+        if im["k"] not in ("ok", "diag"):
+            run.violate("C13/C18: a line ends in an internal error", {"lines": c["lines"]}, "ok|diag", [im["k"], im.get("exc")])
+
+
 def run_c18(run, thorough=False):
     rnd = random.Random(run.seed * 883 + 31)
+    run_scan(run, rnd, thorough)
     base = c18_programs(rnd, 60 if not thorough else 800)
     variants = []
     for c in base:
